@@ -70,6 +70,7 @@ type Contract struct {
 	ModAll      bool
 	HasModifies bool
 	Loops       map[int]*LoopSpec
+	IterLoops   map[int]*LoopSpec
 	AssertAts   []AssertAt
 	Lets        []struct {
 		Name string
@@ -133,7 +134,7 @@ type Lemma struct {
 	File   string
 }
 
-var clauseKW = []string{"requires", "ensures-on-panic", "ensures", "modifies", "loop", "assert-at", "trusted", "inline", "abstract-calls", "may-panic",
+var clauseKW = []string{"loop-call", "requires", "ensures-on-panic", "ensures", "modifies", "loop", "assert-at", "trusted", "inline", "abstract-calls", "may-panic",
 	"allow-send", "arith", "let", "noalloc", "call-inline", "call-abstract", "callback", "path-limit", "implements", "var", "call", "assume", "assert", "havoc"}
 var topKW = []string{"func", "spec", "ghost", "axiom", "lemma", "package", "table"}
 
@@ -346,7 +347,7 @@ func (w *World) parseFuncContract(it rawItem, pkg *types.Package, external bool)
 		w.missing = append(w.missing, fmt.Sprintf("%s:%d: contract for a function that does not exist: %s", it.file, it.line, it.head))
 		return nil
 	}
-	c := &Contract{File: it.file, Line: it.line, Header: it.head, Pkg: pkg, TFn: tf, Tags: ftags, Loops: map[int]*LoopSpec{}, External: external, Trusted: external, Interface: isIface, Callbacks: map[string]*CallbackSpec{}}
+	c := &Contract{File: it.file, Line: it.line, Header: it.head, Pkg: pkg, TFn: tf, Tags: ftags, Loops: map[int]*LoopSpec{}, IterLoops: map[int]*LoopSpec{}, External: external, Trusted: external, Interface: isIface, Callbacks: map[string]*CallbackSpec{}}
 	c.Sig = tf.Type().(*types.Signature)
 	if isIface {
 		c.Key = "invoke " + tf.FullName()
@@ -405,6 +406,30 @@ func (w *World) parseFuncContract(it rawItem, pkg *types.Package, external bool)
 			}
 			c.Modifies = append(c.Modifies, ents...)
 			c.ModAll = c.ModAll || all
+		case "loop-call":
+			i := strings.Index(rest, ":")
+			if i < 0 {
+				return fmt.Errorf("loop-call k: invariant ...")
+			}
+			k, err := strconv.Atoi(strings.TrimSpace(rest[:i]))
+			if err != nil {
+				return fmt.Errorf("loop-call ordinal: %v", err)
+			}
+			body := strings.TrimSpace(rest[i+1:])
+			if !strings.HasPrefix(body, "invariant") {
+				return fmt.Errorf("loop-call clause: expected invariant")
+			}
+			ls := c.IterLoops[k]
+			if ls == nil {
+				ls = &LoopSpec{}
+				c.IterLoops[k] = ls
+			}
+			tags, src := parseTags(strings.TrimSpace(strings.TrimPrefix(body, "invariant")))
+			x, err := parseSpec(src)
+			if err != nil {
+				return err
+			}
+			ls.Invs = append(ls.Invs, Clause{Tags: tags, Expr: x, Src: src, Ord: len(ls.Invs)})
 		case "loop":
 			// loop k: invariant e | loop k: decreases e
 			i := strings.Index(rest, ":")
